@@ -40,6 +40,78 @@ func compileArgv(targets []string, long bool, subcommand bool, abs bool) []strin
 	return argv
 }
 
+// compileArgvDirs is compileArgv with an explicit output directory per target.
+func compileArgvDirs(targets []string, dirs map[string]string, long bool, subcommand bool, abs bool) []string {
+	argv := compileArgv(nil, long, subcommand, abs)
+	for _, t := range targets {
+		d := dirs[t]
+		if abs {
+			d = "{SB}/" + d
+		}
+		if long {
+			argv = append(argv, TargetFlagLong[t], d)
+		} else {
+			argv = append(argv, TargetFlagShort[t], d)
+		}
+	}
+	return argv
+}
+
+// layoutDirs maps targets to output directories for the non-default layouts.
+func layoutDirs(layout string, ts []string) map[string]string {
+	dirs := map[string]string{}
+	for k, t := range ts {
+		switch layout {
+		case "shared-root":
+			dirs[t] = "out/all"
+		case "nested-roots":
+			// each root lives inside the previous one, under a name generators also use
+			if k == 0 {
+				dirs[t] = "out/n"
+			} else {
+				dirs[t] = dirs[ts[k-1]] + "/" + []string{"test", "include", "main", "src", "gen"}[k%5]
+			}
+		default:
+			dirs[t] = targetDir[t]
+		}
+	}
+	return dirs
+}
+
+// layoutDiff: are the files target victim writes when requested alone all
+// present, byte for byte, under its directory in the combined run? Paths that
+// another requested target also writes are skipped (last writer wins there).
+func layoutDiff(alone map[string]*CLIOutcome, o *CLIOutcome, dirs map[string]string, ts []string, victim string) []string {
+	other := map[string]bool{}
+	for _, u := range ts {
+		if u == victim || alone[u] == nil {
+			continue
+		}
+		for n := range alone[u].subtree(targetDir[u]) {
+			other[dirs[u]+"/"+n] = true
+		}
+	}
+	var diffs []string
+	sa := alone[victim].subtree(targetDir[victim])
+	names := map[string]bool{}
+	for n := range sa {
+		names[n] = true
+	}
+	for _, n := range sortedKeys(names) {
+		p := dirs[victim] + "/" + n
+		if other[p] {
+			continue
+		}
+		e, ok := o.After[p]
+		if !ok || e.Kind != "file" {
+			diffs = append(diffs, "file missing: "+p)
+		} else if e.Sha != sa[n].Sha {
+			diffs = append(diffs, allDiffLines(sa[n].Data, e.Data)...)
+		}
+	}
+	return diffs
+}
+
 func treeSig(o *CLIOutcome, prefix string) string {
 	var ps []string
 	for p, e := range o.After {
@@ -94,6 +166,24 @@ func cliDiff(a, b *CLIOutcome) (targets []string, diffs map[string][]string) {
 	return
 }
 
+// staleDisk: a re-run into directories that already hold newer files of the
+// same names (left by an earlier compilation of something else): the same DSL
+// and flags must still yield the same bytes.
+func staleDisk(text string, ref *CLIOutcome) []DiskEntry {
+	disk := []DiskEntry{{Path: "in.dsl", Kind: "file", Data: []byte(text), AgeSec: 3600}}
+	var ps []string
+	for p, e := range ref.After {
+		if strings.HasPrefix(p, "out/") && e.Kind == "file" {
+			ps = append(ps, p)
+		}
+	}
+	sort.Strings(ps)
+	for _, p := range ps {
+		disk = append(disk, DiskEntry{Path: p, Kind: "file", Data: append([]byte("// left over from an earlier run\n"), ref.After[p].Data...)})
+	}
+	return disk
+}
+
 func c13CLI(c *Ctx, n int) error {
 	return ParallelFor(n, c.Workers, func(i int) error {
 		seed := SubSeed(c.Seed, "c13cli", i)
@@ -140,11 +230,19 @@ func c13CLI(c *Ctx, n int) error {
 				}
 			}},
 		}
+		cfgs = append(cfgs, struct {
+			name string
+			f    func(*SchedConfig)
+		}{"disk0-stale-output", func(s *SchedConfig) {}})
 		for k, cf := range cfgs {
 			cfg := s0()
 			cfg.Seed = SubSeed(seed, cf.name, k)
 			cf.f(&cfg)
 			wi := mkWorld(cfg)
+			if cf.name == "disk0-stale-output" {
+				wi.Disk0 = staleDisk(text, o0)
+				c.ev.Fire("disk0_stale_files", 1)
+			}
 			oi, err := c.sc.RunCLI(wi)
 			if err != nil {
 				return err
@@ -208,6 +306,9 @@ func (c *Ctx) candidate13CLI(caseIdx int, prog *Prog, w0, wi *CLIWorld, sname, t
 		if err != nil || oa.TimedOut {
 			return false, nil, nil, nil
 		}
+		if sname == "disk0-stale-output" {
+			b.Disk0 = staleDisk(p.Render(), oa)
+		}
 		ob, err := c.sc.RunCLI(&b)
 		if err != nil || ob.TimedOut {
 			return false, nil, nil, nil
@@ -234,6 +335,11 @@ func (c *Ctx) candidate13CLI(caseIdx int, prog *Prog, w0, wi *CLIWorld, sname, t
 	a, b := *w0, *wi
 	a.Disk0 = []DiskEntry{{Path: "in.dsl", Kind: "file", Data: []byte(small.Render())}}
 	b.Disk0 = a.Disk0
+	if sname == "disk0-stale-output" {
+		if oa, err := c.sc.RunCLI(&a); err == nil {
+			b.Disk0 = staleDisk(small.Render(), oa)
+		}
+	}
 	if ob != nil {
 		b.Sched.UseReplay = true
 		b.Sched.Replay = ob.Rec.Choices
